@@ -76,7 +76,10 @@ Blank(k, o) ==
                        \* wait (wait_closed) | repCLOSED
    dby   |-> "-",      \* who runs it: api | reader | attempt | sender | canc (clean-up of the cancelled attempt) | -
    drsn  |-> "-",      \* its CloseReason
-   sblk  |-> FALSE,    \* a send_message is blocked in drain()
+   adr   |-> "-",      \* out: the peer's address was "given" by the caller / the ConnectToPeer message, or "resolved"
+                       \* through GetPeerAddress (both of the peer's ports advertised: the other port may be reachable)
+   sblk  |-> "-",      \* a written, unsent message is blocked in drain(): "direct" (a caller awaits send_message) |
+                       \* "queued" (queue_message: the task is in _queued_messages, cancelled by disconnect) | "-"
    lives |-> 0, ncall |-> 0, dlv |-> 0, snd |-> 0,
    dlvAC |-> FALSE,    \* history: a message of this connection was delivered after CLOSED
    sndAC |-> FALSE,    \* history: bytes of this connection left after CLOSED
@@ -128,9 +131,10 @@ CleanUp(r) ==
 \* network.py _make_direct_connection ("api") / _handle_connect_to_peer ("ctp"):  PeerConnection(...); registry add
 OutCreate(c, via) ==
   LET r == conn[c] IN
-  /\ via \in {"api", "ctp"}
+  /\ via \in {"api", "resolve", "ctp"}      \* create_peer_connection with / without an address, ConnectToPeer
   /\ r.kind = "out" /\ r.att = "none"
-  /\ Upd(c, [r EXCEPT !.inReg = TRUE, !.att = "running", !.apc = "begin", !.hnd = (via = "api")])
+  /\ Upd(c, [r EXCEPT !.inReg = TRUE, !.att = "running", !.apc = "begin", !.hnd = (via # "ctp"),
+                      !.adr = IF via = "resolve" THEN "resolved" ELSE "given"])
 
 \* connect_server() / the watchdog reconnect (only from UNINIT or CLOSED)
 ServerConnect(c) ==
@@ -290,35 +294,36 @@ Send(c) ==
   /\ r.cs = "CONNECTED" /\ r.wr = "open" /\ ~Busy(r)
   /\ Upd(c, [r EXCEPT !.snd = Sat(@), !.sndAC = @ \/ AfterClosed(r), !.sokAC = @ \/ AfterClosed(r)])
 
-\* written, then blocked in drain() (back-pressure)
-SendBlocked(c) ==
+\* written, then blocked in drain() (back-pressure): by send_message ("direct") or by a queue_message task ("queued")
+SendBlocked(c, how) ==
   LET r == conn[c] IN
-  /\ r.cs = "CONNECTED" /\ r.wr = "open" /\ ~r.sblk /\ ~Busy(r)
-  /\ Upd(c, [r EXCEPT !.snd = Sat(@), !.sndAC = @ \/ AfterClosed(r), !.sblk = TRUE])
+  /\ how \in {"direct", "queued"}
+  /\ r.cs = "CONNECTED" /\ r.wr = "open" /\ r.sblk = "-" /\ ~Busy(r)
+  /\ Upd(c, [r EXCEPT !.snd = Sat(@), !.sndAC = @ \/ AfterClosed(r), !.sblk = how])
 
 \* the transport drained: send_message returns (success) - only an open transport drains
 SendResume(c) ==
   LET r == conn[c] IN
-  /\ r.sblk /\ r.wr = "open" /\ ~Busy(r)
-  /\ Upd(c, [r EXCEPT !.sblk = FALSE, !.sokAC = @ \/ AfterClosed(r)])
+  /\ r.sblk # "-" /\ r.wr = "open" /\ ~Busy(r)
+  /\ Upd(c, [r EXCEPT !.sblk = "-", !.sokAC = @ \/ AfterClosed(r)])
 
 \* the blocked drain() ends with an error (connection lost): _send disconnects (a no-op when the connection is
 \* closing already) and raises ConnectionWriteError
 SendWakeError(c) ==
   LET r == conn[c] IN
-  /\ r.sblk /\ ~Busy(r)
-  /\ Upd(c, [DiscBegin(r, "sender", "WRITE_ERROR") EXCEPT !.sblk = FALSE])
+  /\ r.sblk # "-" /\ ~Busy(r)
+  /\ Upd(c, [DiscBegin(r, "sender", "WRITE_ERROR") EXCEPT !.sblk = "-"])
 
 \* drain() did not return within 10 s
 WriteTimeout(c) ==
   LET r == conn[c] IN
-  /\ r.sblk /\ ~Busy(r)
-  /\ Upd(c, [DiscBegin(r, "sender", "TIMEOUT") EXCEPT !.sblk = FALSE])
+  /\ r.sblk # "-" /\ ~Busy(r)
+  /\ Upd(c, [DiscBegin(r, "sender", "TIMEOUT") EXCEPT !.sblk = "-"])
 
 \* write() raises
 WriteError(c) ==
   LET r == conn[c] IN
-  /\ r.cs = "CONNECTED" /\ r.wr = "open" /\ ~r.sblk /\ ~Busy(r)
+  /\ r.cs = "CONNECTED" /\ r.wr = "open" /\ r.sblk = "-" /\ ~Busy(r)
   /\ Upd(c, DiscBegin(r, "sender", "WRITE_ERROR"))
 
 \* the reader's read ends; when the connection is closing already the reader just ends
@@ -348,7 +353,8 @@ DiscGo(c) ==
   /\ r.dpc = "repCLOSING"
   /\ Upd(c, [r EXCEPT !.dpc = IF r.wr = "open" THEN "wait" ELSE "now",
                       !.wr = IF r.wr = "open" THEN "closing" ELSE r.wr,
-                      !.apc = IF r.apc = "initread" THEN "finish" ELSE r.apc])
+                      !.apc = IF r.apc = "initread" THEN "finish" ELSE r.apc,
+                      !.sblk = IF r.sblk = "queued" /\ r.dby # "sender" THEN "-" ELSE r.sblk])   \* _cancel_queued_messages
 
 \* wait_closed() returned or DISCONNECT_TIMEOUT passed, or (dpc = "now") there was nothing to wait for:
 \* state CLOSED, registry remove, report
@@ -369,13 +375,13 @@ DiscDone(c) ==
        [] OTHER -> Upd(c, r1)
 
 Step(c) ==
-  \/ (\E via \in {"api", "ctp"} : OutCreate(c, via)) \/ ServerConnect(c) \/ ConnectBegin(c) \/ ReportDone(c)
+  \/ (\E via \in {"api", "resolve", "ctp"} : OutCreate(c, via)) \/ ServerConnect(c) \/ ConnectBegin(c) \/ ReportDone(c)
   \/ ConnectOk(c) \/ ConnectFail(c) \/ ConnectCancelledOpen(c) \/ ConnectCancelledReport(c)
   \/ ConnectCancelledInDisconnect(c) \/ (\E how \in {"ok", "blocked", "fail"} : InitWrite(c, how))
   \/ DrainResume(c) \/ DrainTimeout(c) \/ ConnectCancelledDrain(c) \/ InitSent(c)
   \/ InAccept(c) \/ (\E how \in {"peerinit", "pierce"} : InitOk(c, how)) \/ (\E path \in InitPaths : InitFails(c, path))
   \/ AcceptFinish(c)
-  \/ Deliver(c) \/ Send(c) \/ SendBlocked(c) \/ SendResume(c) \/ SendWakeError(c) \/ WriteTimeout(c) \/ WriteError(c)
+  \/ Deliver(c) \/ Send(c) \/ (\E how \in {"direct", "queued"} : SendBlocked(c, how)) \/ SendResume(c) \/ SendWakeError(c) \/ WriteTimeout(c) \/ WriteError(c)
   \/ (\E path \in ReadPaths : ReadEnds(c, path)) \/ Disconnect(c) \/ DiscGo(c) \/ DisconnectEnd(c) \/ DiscDone(c)
 
 Next == \E c \in Conns : Step(c)
